@@ -28,7 +28,7 @@ RULE = ("Hypothesis: component trees built through the API (all value kinds, par
         "with >= 2 used zone ids) run in child interpreters with PYTHONHASHSEED in {0,1,2,3,4242} give identical bytes. "
         "Non-trivial: >= 3 distinct property names and a value with >= 2 parameters (for (5): >= 2 zone ids); distinct by hash.")
 ASSUMPTIONS = ["a sample of hash seeds stands for 'whatever the hash seed'", "texts contain no backslash (RC-B is not a C10 matter)"]
-REQUIRED_CLASSES = ["multi-param", "repeated-property", "direct-typed-value", "hashseed-compared", "add-missing-timezones", "nested"]
+REQUIRED_CLASSES = ["multi-param", "repeated-property", "direct-typed-value", "hashseed-compared", "add-missing-timezones", "nested", "hashseed:mixed-kind-list", "hashseed:general-program", "hashseed:tzinfo-without-id"]
 
 HASHSEEDS = ["0", "1", "2", "3", "4242"]
 
@@ -290,23 +290,28 @@ def _first_line_diff(a, b):
 
 # ----------------------------------------------------------------------------- hash seed clause
 
-def serialise_for_hashseed(case):
-    """runs in the child interpreters"""
+def serialise_for_hashseed(case, variant=0):
+    """runs in the child interpreters; odd variants insert distinct properties / parameters in another order"""
     provider = case.get("provider", "zoneinfo")
     sut.reset(provider)
-    root = build(case)
+    root = build(case, permute_tree(case["tree"], case.get("perm") or [1, 0], variant) if variant % 2 else None)
     if case.get("add_missing") and isinstance(root, Calendar):
         # a window of several years: the generated VTIMEZONEs then carry RDATE lists with several values
         root.add_missing_timezones(first_date=date(2012, 1, 1), last_date=date(2021, 1, 1))
     return {"sorted": hashlib.sha256(root.to_ical()).hexdigest(), "unsorted": hashlib.sha256(root.to_ical(sorted=False)).hexdigest(),
-            "head": root.to_ical()[:0].decode(), "order": [c.name + ":" + str(c.get("TZID", "")) for c in root.subcomponents][-6:]}
+            "head": root.to_ical().decode("utf-8", "replace")[-400:], "order": [c.name + ":" + str(c.get("TZID", "")) for c in root.subcomponents][-6:]}
+
+
+ERRORS = []     # programs that raised in a child (same error under every seed is not a failure, but it is reported)
 
 
 def judge_hashseed(cases):
     """-> list of failure lists; spawns one child per hash seed for the whole batch"""
     results = {}
-    for hs in HASHSEEDS:
-        env = dict(os.environ, PYTHONHASHSEED=hs, VERIF_REPO=REPO)
+    for k, hs in enumerate(HASHSEEDS):
+        # child k: hash seed HASHSEEDS[k]; odd k inserts distinct properties/parameters in another order; k = 2, 3 run the
+        # batch in reverse order (another history of the same process-wide state before each program)
+        env = dict(os.environ, PYTHONHASHSEED=hs, VERIF_REPO=REPO, VERIF_C10_VARIANT=str(k))
         p = subprocess.run([sys.executable, os.path.join(VERIF, "tools", "c10_child.py")], input=json.dumps(cases).encode(),
                            stdout=subprocess.PIPE, stderr=subprocess.PIPE, env=env, timeout=600)
         if p.returncode != 0:
@@ -319,11 +324,14 @@ def judge_hashseed(cases):
         for hs in HASHSEEDS[1:]:
             r = results[hs][i]
             if "error" in r or "error" in base:
+                ERRORS.append(str(base.get("error") or r.get("error"))[:120])
                 if r != base:
                     fl.append(Failure("C10.hashseed", "child-error-differs", f"{base!r} vs {r!r}"[:300]))
                 continue
-            if r["sorted"] != base["sorted"] or r["unsorted"] != base["unsorted"]:
-                fl.append(Failure("C10.hashseed", "bytes-depend-on-hash-seed", f"seed {HASHSEEDS[0]}: {base['order']!r}; seed {hs}: {r['order']!r}"))
+            k = HASHSEEDS.index(hs)
+            if r["sorted"] != base["sorted"] or (k % 2 == 0 and r["unsorted"] != base["unsorted"]):
+                what = "bytes-depend-on-hash-seed" if k == 4 else "bytes-depend-on-process-history-or-insertion-order"
+                fl.append(Failure("C10.hashseed", what, f"child 0 (seed {HASHSEEDS[0]}): {base['order']!r} {base['head']!r}; child {k} (seed {hs}): {r['order']!r} {r['head']!r}"[:600]))
                 break
         out.append(fl)
     return out
@@ -333,7 +341,7 @@ def _hashseed_stream(ctx):
     import hypothesis
     from hypothesis import HealthCheck, Phase, given, settings
     col = ctx["collector"]
-    n = 24 if ctx["tier"] == "quick" else 300
+    n = 60 if ctx["tier"] == "quick" else 600
     batch = []
 
     @hypothesis.seed(ctx["seed"])
@@ -343,6 +351,9 @@ def _hashseed_stream(ctx):
         batch.append(case)
     gen()
     verdicts = judge_hashseed(batch)
+    if len(set(ERRORS)) and len(ERRORS) > 2 * len(batch):      # more than half of the programs raise: the stream tests nothing
+        raise RuntimeError(f"hash-seed stream: most programs raise in the children: {sorted(set(ERRORS))[:3]!r}")
+    col.classes["hashseed:program-raised-identically"] += len(ERRORS) // (len(HASHSEEDS) - 1)
     for case, fl in zip(batch, verdicts):
         col.evaluations += 1
         inf = info(case)
@@ -373,7 +384,14 @@ def info(case):
                     zones.add(p[1]["tz"])
         if case.get("add_missing"):
             classes.append("add-missing-timezones")
-        return {"nontrivial": len(zones) >= 2, "classes": classes}
+        mixed = any(p[1]["k"] == "mixed" and len({q["k"] for q in p[1]["v"]}) >= 2 for n in nodes for p in n["p"])
+        if mixed:
+            classes.append("hashseed:mixed-kind-list")
+        if "direct" in case:
+            classes.append("hashseed:general-program")
+        if any(p[1]["k"] == "fixed" for n in nodes for p in n["p"]):
+            classes.append("hashseed:tzinfo-without-id")
+        return {"nontrivial": len(zones) >= 2 or mixed or "direct" in case, "classes": classes}
     multi = any(len(p) > 2 and p[2] and len(p[2]) >= 2 for n in nodes for p in n["p"])
     if multi:
         classes.append("multi-param")
@@ -435,8 +453,20 @@ def hashseed_cases(draw):
             props.append([nm, {"k": "zoned", "v": [2020, draw(st.integers(1, 12)), 5, 10, 0, 0], "tz": draw(st.sampled_from(V.ZONES + ["Europe/London", "Asia/Tokyo"]))},
                           {n: "v" for n in draw(_pnames)}])
         props.append(["SUMMARY", {"k": "text", "v": draw(st.sampled_from(["a", "b", "Ünï"]))}])
+        if draw(st.integers(0, 2)) == 0:   # tzinfo objects without a zone id; two of them may denote the same instant
+            h, offs = draw(st.integers(6, 18)), draw(st.lists(st.sampled_from([0, 60, 120, -300, 330]), min_size=2, max_size=2))
+            twin = [["UID", {"k": "text", "v": "t"}]]
+            for nm, off in zip(draw(st.permutations(["DTSTART", "DTEND", "RECURRENCE-ID", "CREATED"]))[:2], offs):
+                twin.append([nm, {"k": "fixed", "v": [2024, 6, 1, h + off // 60, off % 60, 0], "off": off}])
+            evs.append({"c": "VEVENT", "p": twin, "s": []})
+        if draw(st.integers(0, 1)):     # one list mixing value kinds: whatever is written must not depend on set order
+            props.append([draw(st.sampled_from(["RDATE", "EXDATE"])),
+                          {"k": "mixed", "v": draw(st.lists(st.one_of(V.s_date, V.s_naive, V.s_utc, V.s_zoned, T.s_value("period")), min_size=2, max_size=4))}])
         evs.append({"c": draw(st.sampled_from(["VEVENT", "VTODO"])), "p": props, "s": []})
+    if draw(st.integers(0, 3)) == 0:    # any generated program of the main stream, replayed under every hash seed
+        return dict(draw(cases()), mode="hashseed", add_missing=False)
     return {"mode": "hashseed", "provider": draw(st.sampled_from(["zoneinfo", "pytz"])), "add_missing": draw(st.sampled_from([True, True, False])),
+            "perm": draw(st.lists(st.integers(0, 6), min_size=2, max_size=6)),
             "tree": {"c": "VCALENDAR", "p": [["PRODID", {"k": "text", "v": "x"}], ["VERSION", {"k": "text", "v": "2.0"}]], "s": evs}}
 
 
